@@ -215,7 +215,7 @@ class Content(object):
 
     def __del__(self):
         h = getattr(self, "_h", None)
-        if h is not None and akb._lib is not None:
+        if h is not None and akb is not None and akb._lib is not None:
             try:
                 akb._lib.akb_release(h)
             except Exception:
